@@ -505,9 +505,12 @@ pub fn oracle(case: &Case, ans: &dyn Fn(&str, usize) -> String, fails: &mut Fail
                 fails.fail(sink, "C07:top_element-panics", "top_element panics".to_string(), case.t, p, "top_element");
             }
         } else {
-            // topmost element among ancestor-or-self; below a document: its first element child
+            // topmost element among ancestor-or-self; a document: its first element child, itself if none
             let expect = if is_doc {
-                format!("ok {}", path_str(first_elem.unwrap()))
+                match first_elem {
+                    Some(q) => format!("ok {}", path_str(q)),
+                    None => format!("ok {}", path_str(p)),
+                }
             } else {
                 match anc_self.iter().rev().find(|q| is_elem(q)) {
                     Some(q) => format!("ok {}", path_str(q)),
